@@ -158,20 +158,14 @@ func c03ReplyMatching(p *Prog, r *Report, R string) {
 		r.Check(okDel, R, "id-forgotten-on-hit", del.Pos(p), "delete(ctxByID, id) on every hit", "on a matching reply the id is not removed from ctxByID unconditionally (extra conditions: "+guardsOf(del)+"): a late duplicate of that reply is delivered as the answer to the next request")
 		// same critical section for lookup and delete
 		var lk ssa.Instruction
-		EachInstr(rc.fn, func(in ssa.Instruction) {
+		rc.EachInstrDeep(func(in ssa.Instruction) {
 			if l, ok := in.(*ssa.Lookup); ok && l.CommaOk && strings.HasSuffix(Desc(l.X), ".ctxByID") {
 				lk = in
 			}
 		})
 		same := false
 		if lk != nil && len(del) == 1 {
-			for _, h1 := range p.E1().held[lk] {
-				for _, h2 := range p.E1().held[del[0].In] {
-					if h1.At == h2.At {
-						same = true
-					}
-				}
-			}
+			same = p.SameSection(lk, del[0].In)
 		}
 		r.Check(same, R, "lookup-and-delete-atomic", del.Pos(p), "lookup and delete in one critical section", "the id lookup and its removal are not in one critical section")
 		fr := rc.Ev("call", "mangos.(*Message).Free").Arg(0, "recv.p.RecvMsg()").Guarded("!" + hit)
